@@ -26,13 +26,12 @@ def zlist(xs):
 
 import c10_search as S
 
-THEOREMS_ALL = ["C10_loop_is_per_sample_add", "C10_entry_is_dt_times_sample_count", "C10_inactive_cells_receive_nothing",
+THEOREMS = ["C10_loop_is_per_sample_add", "C10_entry_is_dt_times_sample_count", "C10_inactive_cells_receive_nothing",
             "C10_entries_sum_to_active_length", "C10_all_active_sum_is_length", "C10_interval_sample_count",
             "C10_cartesian_cell_error_at_most_one_step", "C10_cell_error_k_intervals_partial",
             "C10_merged_map_additive", "C10_phi_index_periodic", "C10_dt_below_two_steps",
-            "C10_mask_map_spec"]
+            "C10_mask_map_spec", "C10_sample_point_formula"]
 
-THEOREMS = ["C10_loop_is_per_sample_add"]
 PHI_TABLE = [(30, n) for n in (1, 2, 3, 4, 6, 12)] + [(45, n) for n in (1, 2, 4, 8)] + \
             [(60, n) for n in (1, 2, 3, 6)] + [(90, n) for n in (1, 2, 4)] + [(120, n) for n in (1, 3)] + \
             [(180, n) for n in (1, 2)] + [(360, 1)]
@@ -334,7 +333,8 @@ def make_case(rng, impl, g, material, nmax, exact):
     init = [0.0] * bins if rng.random() < 0.5 else [dyadic(rng, 0, 4, 6) for _ in range(bins)]
     out, err = impl.call(kind, material, step, min_samples, m12, w0, w1, init)
     return {"kind": kind, "class": cls, "transform": tk, "step": step, "min_samples": min_samples, "m12": m12,
-            "p0": [float(v) for v in w0], "p1": [float(v) for v in w1], "length": length, "init": init, "out": out,
+            "p0": [float(v) for v in w0], "p1": [float(v) for v in w1], "length": length,
+            "start_local": list(impl.local(m12, w0)), "end_local": list(impl.local(m12, w1)), "init": init, "out": out,
             "err": err, "n": max(min_samples, int(length / step)), "short": length < 0.1 * step}
 
 
@@ -347,8 +347,8 @@ def grid_coq(g):
 
 
 def case_coq(g, vmname, c):
-    return "%s %s %s %s %s %s %s %s %s %s %s" % (
-        grid_coq(g), vmname, qlit(c["step"]), zlit(c["min_samples"]), qlist(c["m12"]), vlit(c["p0"]), vlit(c["p1"]),
+    return "%s %s %s %s %s %s %s %s %s %s" % (
+        grid_coq(g), vmname, qlit(c["step"]), zlit(c["min_samples"]), vlit(c["start_local"]), vlit(c["end_local"]),
         qlit(c["length"]), qlist(c["init"]), qlist(c["out"]), zlit(c["err"]))
 
 
@@ -424,7 +424,14 @@ def traced_cases(rng, impl, n_objects, rays_per, nmax):
             d_w = Vector3D(*d).transform(tr)
             ray = Ray(origin=o_w, direction=d_w, min_wavelength=500., max_wavelength=501., bins=obj.bins)
             before = len(rec.calls)
-            sp = ray.trace(world)
+            try:
+                sp = ray.trace(world)
+            except IndexError as exc:
+                # the bounding primitive keeps every path inside the grid: an IndexError here is a finding
+                g.setdefault("trace_errors", []).append({"origin_local": org, "dir_local": d, "step": step,
+                                                         "error": "IndexError: %s" % exc})
+                del rec.calls[before:]
+                continue
             calls = rec.calls[before:]
             tracesum = [float(v) for v in sp.samples]
             g["traces"].append({"origin_local": org, "dir_local": d, "result": tracesum, "ncalls": len(calls),
@@ -437,6 +444,7 @@ def traced_cases(rng, impl, n_objects, rays_per, nmax):
                 if length <= 0 or (fr != 0 and (fr < Fraction(1, 10 ** 6) or fr > 1 - Fraction(1, 10 ** 6))):
                     continue
                 c.update({"kind": kind, "class": "traced" + ("/start-inside" if dist == 0.0 else ""), "transform": "scene",
+                          "start_local": list(impl.local(c["m12"], c["p0"])), "end_local": list(impl.local(c["m12"], c["p1"])),
                           "step": step, "min_samples": 2, "length": length, "err": 0,
                           "n": max(2, int(length / step)), "short": length < 0.1 * step})
                 g["cases"].append(c)
@@ -473,9 +481,9 @@ def run(ctx):
     impl = Impl()
     rng = ctx.rng
     quick = ctx.quick
-    nmax = 120 if quick else 400
-    n_grids = 44 if quick else 400
-    rays_per = 8 if quick else 24
+    nmax = 120 if quick else 250
+    n_grids = 44 if quick else 240
+    rays_per = 8 if quick else 16
 
     # ---- corpus of past disagreements first ---------------------------------------------------
     corpus_dir = os.path.join(os.path.dirname(os.path.dirname(os.path.abspath(__file__))), "corpus", "C10")
@@ -489,6 +497,7 @@ def run(ctx):
                 for c in g["cases"]:
                     c["out"], c["err"] = impl.call(g["kind"], mat, c["step"], c["min_samples"], c["m12"], c["p0"], c["p1"], c["init"])
                     c["length"] = impl.length(c["m12"], c["p0"], c["p1"])
+                    c["start_local"], c["end_local"] = list(impl.local(c["m12"], c["p0"])), list(impl.local(c["m12"], c["p1"]))
                 g["corpus"] = f
                 grids.append(g)
     n_corpus = len(grids)
@@ -542,8 +551,26 @@ def run(ctx):
         phi_cases.append("b2z (check_phi {| cg_rmin := 0; cg_dr := 1; cg_dz := 1; cg_nphi := %s; cg_dphi := %s; cg_nr := 1 |} %s %s %s)"
                          % (zlit(nphi), zlit(dphi), qlit(x), qlit(y), qlit(phi)))
 
+    ctx.log('generated %d grids' % len(grids))
+    # ---- the model's exact Cartesian chord (slab) against the harness's exact cut of the segment ----------
+    chord_cases = []
+    for g in grids:
+        if g["kind"] != "cart":
+            continue
+        for c in g["cases"]:
+            if c["short"] or c["err"] or c["class"] in ("below-zero", "leaves-grid") or len(chord_cases) >= (120 if quick else 1500):
+                continue
+            seq = S.chords_cart(g, c["start_local"], c["end_local"])
+            tot = {}
+            for cell, fr in seq:
+                tot[cell] = tot.get(cell, 0) + fr
+            cells = list(tot)[:2] + [tuple(rng.randrange(g["shape"][a]) for a in range(3))]
+            for cell in cells:
+                chord_cases.append("b2z (check_chord %s %s %s %s (%s, %s, %s) %s)" % (
+                    vlit(g["steps"]), vlit(c["start_local"]), vlit(c["end_local"]), qlit(c["length"]),
+                    zlit(cell[0]), zlit(cell[1]), zlit(cell[2]), qlit(Fraction(tot.get(cell, 0)))))
     # ---- write the case files and run the model inside Coq ---------------------------------------
-    per_file = 120 if quick else 200
+    per_file = 25 if quick else 60
     files = []
     cur_defs, cur_cases, cur_ids = [], [], []
     flat = []         # (grid index, case index)
@@ -566,10 +593,13 @@ def run(ctx):
         txt = (HEADER + "\n".join(defs) + "\nDefinition results : list Z := [\n  " + ";\n  ".join(cs)
                + "].\nEval vm_compute in results.\n")
         paths.append((ctx.write_gen("cases_%03d.v" % fi, txt), ids))
-    aux = (HEADER + "Definition results : list Z := [\n  " + ";\n  ".join(mask_checks + phi_cases)
+    aux = (HEADER + "Definition results : list Z := [\n  " + ";\n  ".join(mask_checks + phi_cases + chord_cases)
            + "].\nEval vm_compute in results.\n")
     aux_path = ctx.write_gen("maps_phi.v", aux)
+    import time as _t
+    _t0 = _t.time()
     res = coqc_many([p for p, _ in paths] + [aux_path], timeout=1500)
+    ctx.log('coqc on %d files: %.1fs' % (len(paths) + 1, _t.time() - _t0))
     codes = {}
     diff = []
     for p, ids in paths:
@@ -589,10 +619,10 @@ def run(ctx):
     ok, out = res[aux_path]
     vals = parse_evals(out) if ok else []
     zs = parse_zlist(vals[0]) if ok and len(vals) == 1 else []
-    good = ok and len(zs) == len(mask_checks) + len(phi_cases)
+    good = ok and len(zs) == len(mask_checks) + len(phi_cases) + len(chord_cases)
     bad_aux = [i for i, z in enumerate(zs) if z == 0]
-    ctx.obligation("correspondence maps_phi.v (%d mask/voxel-map setters, %d angular-formula points)"
-                   % (len(mask_checks), len(phi_cases)), "correspondence", good and not bad_aux,
+    ctx.obligation("correspondence maps_phi.v (%d mask/voxel-map setters, %d angular-formula points, %d exact Cartesian chords)"
+                   % (len(mask_checks), len(phi_cases), len(chord_cases)), "correspondence", good and not bad_aux,
                    out[-1500:] if not good else "DISAGREE at %s" % bad_aux)
     if not good:
         ctx.broken.append("coqc failed on %s: %s" % (aux_path, out[-500:]))
@@ -615,14 +645,23 @@ def run(ctx):
             break
     for g in traced:
         fails += S.search_traced(impl, g, stats)
+        for te in g.get("trace_errors", []):
+            fails.append({"claim": "a ray crossing a ray-transfer box or cylinder is integrated without error (it stays inside the grid)",
+                          "grid": {k: v for k, v in g.items() if k not in ("cases", "traces", "_mat_id", "_mat_vm", "trace_errors")},
+                          "trace": te})
     # angular periods / sector sizes outside the model's table (search only)
     fails += S.search_other_periods(impl, rng, 20 if quick else 200, stats)
+    # pipelines.py: matrix of a sight line = entries of its (single) ray
+    fails += S.search_pipeline(impl, rng, 4 if quick else 30, stats)
     for i in bad_aux:
+        if i >= len(mask_checks) + len(phi_cases):
+            ctx.broken.append("model chord_cart differs from the harness's exact cut: " + chord_cases[i - len(mask_checks) - len(phi_cases)][:400])
         if i < len(mask_checks):
             fails.append({"claim": "mask / voxel_map setter: voxel_map = running index of the active cells (C order), "
                                    "-1 elsewhere, bins = max + 1", "check": mask_checks[i][:300]})
-    ctx.obligation("executable property on the implementation (%d rays, %d cell entries, %d periodic, %d merged, %d traced)"
-                   % (stats["rays"], stats["cells_compared"], stats["periodic"], stats["merged"], stats["traced_rays"]),
+    ctx.obligation("executable property on the implementation (%d rays, %d cell entries, %d periodic, %d merged, %d traced, %d pipeline)"
+                   % (stats["rays"], stats["cells_compared"], stats["periodic"], stats["merged"], stats["traced_rays"],
+                      stats.get("pipeline", 0)),
                    "search", not fails, str(fails[:2])[:1500])
     seen = set()
     for f in fails:
@@ -663,7 +702,7 @@ def run(ctx):
                      if codes.get(i) == 1 and not grids[gi]["cases"][ci]["short"] and not grids[gi]["cases"][ci]["err"]
                      and sum(1 for a, b in zip(grids[gi]["cases"][ci]["init"], grids[gi]["cases"][ci]["out"]) if a != b) >= 2)
     ctx.coverage.update({
-        "evaluations": n_calls + len(mask_checks) + len(phi_cases),
+        "evaluations": n_calls + len(mask_checks) + len(phi_cases) + len(chord_cases),
         "distinct_nontrivial": nontrivial,
         "rule": "one case = one call of integrate(); non-trivial = compared up to rounding only (no ambiguous sample), "
                 "returned normally and changed at least two spectral bins",
